@@ -228,6 +228,13 @@ pub fn matrix() -> Vec<MatrixCase> {
         add("iterate_else", format!("[{{% for q in {u} %}}x{{% else %}}e{{% endfor %}}]"), PRINT, "[e]");
         add("iterate_filter_list", format!("[{{{{ {u}|list|length }}}}]"), PRINT, "[0]");
         add("iterate_in_operator", format!("[{{{{ 1 in {u} }}}}]"), PRINT, "[False]");
+        // the same operator as a link of a comparison chain, in every position
+        add("iterate_not_in_operator", format!("[{{{{ 1 not in {u} }}}}]"), PRINT, "[True]");
+        add("iterate_in_first_link", format!("[{{{{ 1 in {u} == false }}}}]"), PRINT, "[False]");
+        add("iterate_in_last_link", format!("[{{{{ 0 < 1 in {u} }}}}]"), PRINT, "[False]");
+        add("iterate_in_middle_link", format!("[{{{{ 0 < 1 in {u} < 5 }}}}]"), PRINT, "[False]");
+        add("iterate_in_middle_link_if", format!("[{{% if 0 < 1 in {u} < 5 %}}t{{% else %}}f{{% endif %}}]"), PRINT, "[f]");
+        add("iterate_not_in_first_link", format!("[{{{{ 1 not in {u} != 1 }}}}]"), PRINT, "[True]");
         // truth testing
         add("truth_if", format!("[{{% if {u} %}}t{{% else %}}f{{% endif %}}]"), TRUTH, "[f]");
         add("truth_not", format!("[{{{{ not {u} }}}}]"), TRUTH, "[True]");
